@@ -582,7 +582,7 @@ func TestC18Generator(t *testing.T) {
 	rec.Require("extension", "include", "mavname-field", "non-decimal-enum-value", "negative-refused", "bitmask-enum", "enum-field", "scalar-char", "enum-extended-by-includer")
 	root := scratch(t)
 	defer os.RemoveAll(root)
-	evid.Check(t, rec, evid.N(25, 120), func(t *rapid.T) {
+	evid.Check(t, rec, evid.N(50, 200), func(t *rapid.T) {
 		caseCounter++
 		caseDir := fmt.Sprintf("c%d", caseCounter)
 		nb := rapid.IntRange(2, 6).Draw(t, "batch")
